@@ -45,6 +45,8 @@ def gen(r, algo=None, focus=None, tier="quick", offgrid=False):
     else:
         duration = float(F(r.choice([1, 5, 9]), 10 * tps))
         nticks = 0
+    if r.random() < 0.1:
+        multi = int(multi)        # flags given as 0 / 1 (any falsy / truthy value selects the mode)
     cfg = {"algo": algo, "tps": tps, "duration": duration, "pools": pools, "cpus": cpus,
            "ram": float(ram) if ram.denominator != 1 else int(ram), "multi": multi, "over": over}
     pipes = gen_pipes(r, nticks, tps, ram, focus, offgrid=offgrid)
